@@ -95,6 +95,19 @@ pub fn gen(rng: &mut Rng, tier: Tier) -> Scn {
             6 => SourceSpec::File,
             _ => SourceSpec::FileInRam,
         });
+        // a content-encoded object: the buffer is encoded by flute, the stream is handed over pre-encoded by the
+        // application (compress_stream) with content length and MD5 of the content set on the description
+        if rng.chance(0.12) {
+            o.cenc = *rng.pick(&[CencSpec::Zlib, CencSpec::Deflate, CencSpec::Gzip]);
+            o.kind = *rng.pick(&[ContentKind::Text, ContentKind::Random, ContentKind::Zeros]);
+            let sched = match rng.below(4) {
+                0 => ReadSched::Full,
+                1 => ReadSched::Fixed(*rng.pick(&[3usize, 64, 1000])),
+                2 => ReadSched::Interrupted { chunk: *rng.pick(&[7usize, 64]), every: rng.range(2, 10) as u32 },
+                _ => ReadSched::Random { seed: rng.next_u64(), max: *rng.pick(&[10usize, 100, 5000]) },
+            };
+            *variants.last_mut().unwrap() = SourceSpec::PreEncodedStream(sched);
+        }
         objects.push(o);
         ops.push(TimedOp { when: When::AtUs(0), op: Op::Add(i) });
     }
